@@ -192,7 +192,19 @@ func main() {
 		}
 	}
 	if *out != "" {
-		if err := emitAccess(pkgs, *out); err != nil {
+		// C19 access table: union of the non-race and the race build of the packages
+		var rpkgs []*packages.Package
+		for _, p := range pkgs {
+			rp, err := raceVariant(p)
+			if err != nil {
+				fmt.Fprintln(os.Stderr, "race variant of", p.Name, ":", err)
+				os.Exit(2)
+			}
+			if rp != nil {
+				rpkgs = append(rpkgs, rp)
+			}
+		}
+		if err := emitAccess([][]*packages.Package{pkgs, rpkgs}, *out); err != nil {
 			fmt.Fprintln(os.Stderr, err)
 			os.Exit(2)
 		}
